@@ -544,3 +544,13 @@ func init() {
 		return vBool(r)
 	}
 }
+
+func init() {
+	externs["bytes.Index"] = func(c *FnCtx, st *State, call *ast.CallExpr, recv *Val, args []Val) Val {
+		s, sep := args[0], args[1]
+		r := c.fresh("idx", "Int")
+		c.assume(st, sAnd(sx("<=", "(- 1)", r), sImp(sx(">=", r, "0"), sx("<=", sx("+", r, sep.ln()), s.ln()))))
+		return Val{K: KInt, S: r, T: types.Typ[types.Int]}
+	}
+	pureExterns["bytes.Index"] = true
+}
